@@ -37,9 +37,14 @@ use crate::config::{SourceConfig, SynchronizationConfig};
 use crate::identifiers::ReferenceId;
 use crate::packet::v5::server_reference_id::verif_probe::gk as pb;
 use crate::packet::v5::server_reference_id::{BloomFilter, ServerId};
-use crate::server::{FilterAction, FilterList, IpSubnet, Server, ServerAction, ServerConfig, ServerReason, ServerResponse, ServerStatHandler};
+use crate::server::{
+    FilterAction, FilterList, IpSubnet, Server, ServerAction, ServerConfig, ServerReason,
+    ServerResponse, ServerStatHandler,
+};
 use crate::source::verif_probe::gk as ps;
-use crate::source::{NtpSource, NtpSourceAction, NtpSourceSnapshot, ProtocolVersion, SourceSnapshot};
+use crate::source::{
+    NtpSource, NtpSourceAction, NtpSourceSnapshot, ProtocolVersion, SourceSnapshot,
+};
 use crate::system::{NtpManager, NtpServerInfo, NtpSnapshot, SourceType, TimeSnapshot};
 use crate::time_types::{NtpDuration, NtpTimestamp, PollInterval, PollIntervalLimits};
 use crate::{ClockId, KeySetProvider, NtpClock, NtpLeapIndicator, NtpVersion};
@@ -146,7 +151,14 @@ enum Verdict {
     Either,
 }
 
-fn oracle(stratum: u8, local_stratum: u8, reachable: bool, source_is_own: bool, ref_is_own: bool, bloom_reports_us: bool) -> Verdict {
+fn oracle(
+    stratum: u8,
+    local_stratum: u8,
+    reachable: bool,
+    source_is_own: bool,
+    ref_is_own: bool,
+    bloom_reports_us: bool,
+) -> Verdict {
     if stratum >= local_stratum {
         return Verdict::MustReject("stratum");
     }
@@ -160,7 +172,11 @@ fn oracle(stratum: u8, local_stratum: u8, reachable: bool, source_is_own: bool, 
         return Verdict::MustReject("refid-loop");
     }
     if source_is_own {
-        return if stratum == 1 { Verdict::Either } else { Verdict::MustReject("self") };
+        return if stratum == 1 {
+            Verdict::Either
+        } else {
+            Verdict::MustReject("self")
+        };
     }
     if stratum == 0 && ref_is_own {
         return Verdict::Either;
@@ -209,11 +225,21 @@ impl St {
 fn verdict_check(ctx: &Ctx, v: Verdict, got: bool, what: &str, trace: &str) -> bool {
     match (v, got) {
         (Verdict::MustReject(reason), true) => {
-            ctx.violation(&format!("C33:accepted-{reason}"), format!("{what}: source is usable although the statement forbids it ({reason})"), trace);
+            ctx.violation(
+                &format!("C33:accepted-{reason}"),
+                format!("{what}: source is usable although the statement forbids it ({reason})"),
+                trace,
+            );
             false
         }
         (Verdict::MustAccept, false) => {
-            ctx.violation("C33:rejected-usable-source", format!("{what}: source rejected although no rejection condition of the statement holds"), trace);
+            ctx.violation(
+                "C33:rejected-usable-source",
+                format!(
+                    "{what}: source rejected although no rejection condition of the statement holds"
+                ),
+                trace,
+            );
             false
         }
         _ => true,
@@ -224,7 +250,9 @@ fn verdict_check(ctx: &Ctx, v: Verdict, got: bool, what: &str, trace: &str) -> b
 // A. accept_synchronization directly
 // ---------------------------------------------------------------------------------
 
-const A_STRATA: [u8; 20] = [0, 1, 2, 3, 4, 5, 6, 7, 8, 9, 10, 11, 12, 13, 14, 15, 16, 17, 254, 255];
+const A_STRATA: [u8; 20] = [
+    0, 1, 2, 3, 4, 5, 6, 7, 8, 9, 10, 11, 12, 13, 14, 15, 16, 17, 254, 255,
+];
 const A_LOCAL: [u8; 8] = [0, 1, 2, 3, 15, 16, 17, 255];
 const A_REACH_QUICK: [u8; 9] = [0, 1, 2, 0x40, 0x80, 0x81, 0x7F, 0xFE, 0xFF];
 
@@ -241,7 +269,10 @@ struct ACase {
 
 impl ACase {
     fn trace(&self) -> String {
-        format!("A;{};{};{};{};{};{};{}", self.stratum, self.local, self.reach, self.src, self.refk, self.ipl, self.bloom)
+        format!(
+            "A;{};{};{};{};{};{};{}",
+            self.stratum, self.local, self.reach, self.src, self.refk, self.ipl, self.bloom
+        )
     }
 }
 
@@ -258,11 +289,22 @@ fn run_a(ctx: &Ctx, st: &St, c: ACase, blooms: &[(Option<BloomFilter>, bool)]) -
         reach: ps::reach(c.reach),
         stratum: c.stratum,
         reference_id: ReferenceId::from_bytes(ref_id),
-        protocol_version: if bloom.is_some() { ProtocolVersion::V5 } else { ProtocolVersion::V4 },
+        protocol_version: if bloom.is_some() {
+            ProtocolVersion::V5
+        } else {
+            ProtocolVersion::V4
+        },
         bloom_filter: bloom,
     };
     let me = pb::server_id(OWN_IDX);
-    let v = oracle(c.stratum, c.local, c.reach != 0, own.contains(&src_id), own.contains(&ref_id), reports_us);
+    let v = oracle(
+        c.stratum,
+        c.local,
+        c.reach != 0,
+        own.contains(&src_id),
+        own.contains(&ref_id),
+        reports_us,
+    );
     match common::catch(|| snap.accept_synchronization(c.local, &ips, me)) {
         Ok(r) => {
             let got = r.is_ok();
@@ -280,16 +322,32 @@ fn run_a(ctx: &Ctx, st: &St, c: ACase, blooms: &[(Option<BloomFilter>, bool)]) -
             format!("verdict={v:?} got={r:?}")
         }
         Err(e) => {
-            ctx.violation("C33:accept-panic", format!("accept_synchronization panicked: {e}"), c.trace());
+            ctx.violation(
+                "C33:accept-panic",
+                format!("accept_synchronization panicked: {e}"),
+                c.trace(),
+            );
             format!("panic {e}")
         }
     }
 }
 
 fn part_a(ctx: &Ctx, st: &St) {
-    let reach: Vec<u8> = if ctx.quick() { A_REACH_QUICK.to_vec() } else { (0..=255u8).collect() };
+    let reach: Vec<u8> = if ctx.quick() {
+        A_REACH_QUICK.to_vec()
+    } else {
+        (0..=255u8).collect()
+    };
     let blooms: Vec<_> = (0..BLOOM_KINDS).map(bloom_kind).collect();
-    let radix = [A_STRATA.len(), A_LOCAL.len(), reach.len(), SRC_KINDS, REF_KINDS, IPL_KINDS, BLOOM_KINDS];
+    let radix = [
+        A_STRATA.len(),
+        A_LOCAL.len(),
+        reach.len(),
+        SRC_KINDS,
+        REF_KINDS,
+        IPL_KINDS,
+        BLOOM_KINDS,
+    ];
     let total: u64 = radix.iter().map(|r| *r as u64).product();
     ctx.set("a_cases", total);
     common::par_for(total, 4096, |i| {
@@ -299,7 +357,15 @@ fn part_a(ctx: &Ctx, st: &St) {
             d[k] = (x % radix[k] as u64) as usize;
             x /= radix[k] as u64;
         }
-        let c = ACase { stratum: A_STRATA[d[0]], local: A_LOCAL[d[1]], reach: reach[d[2]], src: d[3], refk: d[4], ipl: d[5], bloom: d[6] };
+        let c = ACase {
+            stratum: A_STRATA[d[0]],
+            local: A_LOCAL[d[1]],
+            reach: reach[d[2]],
+            src: d[3],
+            refk: d[4],
+            ipl: d[5],
+            bloom: d[6],
+        };
         run_a(ctx, st, c, &blooms);
     });
     // every case is distinct input; the non-trivial ones are those where exactly one
@@ -312,7 +378,11 @@ fn part_a(ctx: &Ctx, st: &St) {
 
 #[derive(Clone, Copy, Debug)]
 enum Sym {
-    Ntp { stratum: u8, id: usize, bloom: usize },
+    Ntp {
+        stratum: u8,
+        id: usize,
+        bloom: usize,
+    },
     Pps,
     Sock,
     Csptp,
@@ -350,7 +420,11 @@ fn sym_snapshot(s: Sym) -> (SourceSnapshot, u8, Option<[u8; 4]>, Vec<[u16; 10]>)
                     reach: ps::reach(1),
                     stratum,
                     reference_id: ReferenceId::NONE,
-                    protocol_version: if f.is_some() { ProtocolVersion::V5 } else { ProtocolVersion::V4 },
+                    protocol_version: if f.is_some() {
+                        ProtocolVersion::V5
+                    } else {
+                        ProtocolVersion::V4
+                    },
                     bloom_filter: f,
                 }),
                 stratum,
@@ -359,26 +433,80 @@ fn sym_snapshot(s: Sym) -> (SourceSnapshot, u8, Option<[u8; 4]>, Vec<[u16; 10]>)
             )
         }
         // reference clocks are stratum 0; their identifier is the clock's 4-character name
-        Sym::Pps => (SourceSnapshot::External { stratum: 0, source_id: ReferenceId::PPS }, 0, Some(*b"PPS\0"), vec![]),
-        Sym::Sock => (SourceSnapshot::External { stratum: 0, source_id: ReferenceId::SOCK }, 0, Some(*b"SOCK"), vec![]),
-        Sym::Csptp => (SourceSnapshot::External { stratum: 0, source_id: ReferenceId::CSPTP }, 0, Some(*b"CPTP"), vec![]),
+        Sym::Pps => (
+            SourceSnapshot::External {
+                stratum: 0,
+                source_id: ReferenceId::PPS,
+            },
+            0,
+            Some(*b"PPS\0"),
+            vec![],
+        ),
+        Sym::Sock => (
+            SourceSnapshot::External {
+                stratum: 0,
+                source_id: ReferenceId::SOCK,
+            },
+            0,
+            Some(*b"SOCK"),
+            vec![],
+        ),
+        Sym::Csptp => (
+            SourceSnapshot::External {
+                stratum: 0,
+                source_id: ReferenceId::CSPTP,
+            },
+            0,
+            Some(*b"CPTP"),
+            vec![],
+        ),
     }
 }
 
-fn check_advert(ctx: &Ctx, what: &str, trace: &str, snap: &NtpSnapshot, local: u8, primary: Option<(u8, [u8; 4])>, me: &ServerId, must_contain: &[[u16; 10]]) {
+fn check_advert(
+    ctx: &Ctx,
+    what: &str,
+    trace: &str,
+    snap: &NtpSnapshot,
+    local: u8,
+    primary: Option<(u8, [u8; 4])>,
+    me: &ServerId,
+    must_contain: &[[u16; 10]],
+) {
     match primary {
         None => {
             if snap.stratum != local {
-                ctx.violation("C33:advertised-stratum", format!("{what}: no used source, advertised stratum {} != local stratum {local}", snap.stratum), trace);
+                ctx.violation(
+                    "C33:advertised-stratum",
+                    format!(
+                        "{what}: no used source, advertised stratum {} != local stratum {local}",
+                        snap.stratum
+                    ),
+                    trace,
+                );
             }
         }
         Some((ps_, pid)) => {
             let want = ps_ as u16 + 1;
             if ps_ < 255 && snap.stratum as u16 != want {
-                ctx.violation("C33:advertised-stratum", format!("{what}: advertised stratum {} but the primary source has stratum {ps_}", snap.stratum), trace);
+                ctx.violation(
+                    "C33:advertised-stratum",
+                    format!(
+                        "{what}: advertised stratum {} but the primary source has stratum {ps_}",
+                        snap.stratum
+                    ),
+                    trace,
+                );
             }
             if ps_ == 255 && snap.stratum != 255 {
-                ctx.violation("C33:advertised-stratum", format!("{what}: advertised stratum {} for a primary at stratum 255", snap.stratum), trace);
+                ctx.violation(
+                    "C33:advertised-stratum",
+                    format!(
+                        "{what}: advertised stratum {} for a primary at stratum 255",
+                        snap.stratum
+                    ),
+                    trace,
+                );
             }
             if snap.reference_id.to_bytes() != pid {
                 ctx.violation(
@@ -391,18 +519,32 @@ fn check_advert(ctx: &Ctx, what: &str, trace: &str, snap: &NtpSnapshot, local: u
     }
     // derived (dual of the Bloom rejection rule): what we advertise must let others detect loops through us
     if !snap.bloom_filter.contains_id(me) {
-        ctx.violation("C33:advertised-bloom-missing-id", format!("{what}: advertised Bloom filter does not contain the own server id"), trace);
+        ctx.violation(
+            "C33:advertised-bloom-missing-id",
+            format!("{what}: advertised Bloom filter does not contain the own server id"),
+            trace,
+        );
     }
     for i in must_contain {
         if !snap.bloom_filter.contains_id(&pb::server_id(*i)) {
-            ctx.violation("C33:advertised-bloom-missing-id", format!("{what}: advertised Bloom filter lost an id reported by a used source"), trace);
+            ctx.violation(
+                "C33:advertised-bloom-missing-id",
+                format!("{what}: advertised Bloom filter lost an id reported by a used source"),
+                trace,
+            );
         }
     }
 }
 
 fn run_b(ctx: &Ctx, st: &St, local: u8, word: &[usize], alpha: &[Sym]) -> String {
     let me = pb::server_id(OWN_IDX);
-    let trace = format!("B;{local};{}", word.iter().map(|w| w.to_string()).collect::<Vec<_>>().join(","));
+    let trace = format!(
+        "B;{local};{}",
+        word.iter()
+            .map(|w| w.to_string())
+            .collect::<Vec<_>>()
+            .join(",")
+    );
     let mut snaps = Vec::new();
     let mut primary = None;
     let mut must = Vec::new();
@@ -418,11 +560,32 @@ fn run_b(ctx: &Ctx, st: &St, local: u8, word: &[usize], alpha: &[Sym]) -> String
     st.snapshots.fetch_add(1, Ordering::Relaxed);
     match common::catch(|| NtpSnapshot::from_used_sources(local, me, snaps.into_iter())) {
         Ok(snap) => {
-            check_advert(ctx, &format!("from_used_sources(local {local}, {:?})", word.iter().map(|w| alpha[*w]).collect::<Vec<_>>()), &trace, &snap, local, primary, &me, &must);
-            format!("stratum={} refid={:02x?} ones={}", snap.stratum, snap.reference_id.to_bytes(), snap.bloom_filter.count_ones())
+            check_advert(
+                ctx,
+                &format!(
+                    "from_used_sources(local {local}, {:?})",
+                    word.iter().map(|w| alpha[*w]).collect::<Vec<_>>()
+                ),
+                &trace,
+                &snap,
+                local,
+                primary,
+                &me,
+                &must,
+            );
+            format!(
+                "stratum={} refid={:02x?} ones={}",
+                snap.stratum,
+                snap.reference_id.to_bytes(),
+                snap.bloom_filter.count_ones()
+            )
         }
         Err(e) => {
-            ctx.violation("C33:advert-panic", format!("from_used_sources panicked: {e}"), trace);
+            ctx.violation(
+                "C33:advert-panic",
+                format!("from_used_sources panicked: {e}"),
+                trace,
+            );
             format!("panic {e}")
         }
     }
@@ -509,9 +672,21 @@ impl ServerStatHandler for NoStats {
 
 fn open_server_config() -> ServerConfig {
     ServerConfig {
-        denylist: FilterList { filter: vec![], action: FilterAction::Deny },
+        denylist: FilterList {
+            filter: vec![],
+            action: FilterAction::Deny,
+        },
         allowlist: FilterList {
-            filter: vec![IpSubnet { addr: IpAddr::V4(Ipv4Addr::UNSPECIFIED), mask: 0 }, IpSubnet { addr: IpAddr::V6(Ipv6Addr::UNSPECIFIED), mask: 0 }],
+            filter: vec![
+                IpSubnet {
+                    addr: IpAddr::V4(Ipv4Addr::UNSPECIFIED),
+                    mask: 0,
+                },
+                IpSubnet {
+                    addr: IpAddr::V6(Ipv6Addr::UNSPECIFIED),
+                    mask: 0,
+                },
+            ],
             action: FilterAction::Ignore,
         },
         rate_limiting_cache_size: 0,
@@ -530,15 +705,27 @@ struct ScriptedServer {
 impl ScriptedServer {
     fn new() -> Self {
         let info = Arc::new(RwLock::new(NtpServerInfo {
-            time_snapshot: TimeSnapshot { leap_indicator: NtpLeapIndicator::NoWarning, ..TimeSnapshot::default() },
+            time_snapshot: TimeSnapshot {
+                leap_indicator: NtpLeapIndicator::NoWarning,
+                ..TimeSnapshot::default()
+            },
             ntp_snapshot: NtpSnapshot::default(),
         }));
-        let server = Server::new_internal(open_server_config(), FixedClock, info.clone(), KeySetProvider::new(1).get());
+        let server = Server::new_internal(
+            open_server_config(),
+            FixedClock,
+            info.clone(),
+            KeySetProvider::new(1).get(),
+        );
         ScriptedServer { info, server }
     }
     fn advertise(&self, stratum: u8, refid: [u8; 4], bloom: BloomFilter) {
         let mut i = self.info.write().unwrap();
-        i.ntp_snapshot = NtpSnapshot { stratum, reference_id: ReferenceId::from_bytes(refid), bloom_filter: bloom };
+        i.ntp_snapshot = NtpSnapshot {
+            stratum,
+            reference_id: ReferenceId::from_bytes(refid),
+            bloom_filter: bloom,
+        };
     }
 }
 
@@ -555,7 +742,14 @@ struct Model {
 
 impl Model {
     fn new() -> Self {
-        Model { stratum: 16, refid: *b"XNON", reach: 0, chunks: 0, bloom_full: false, valid_answers: 0 }
+        Model {
+            stratum: 16,
+            refid: *b"XNON",
+            reach: 0,
+            chunks: 0,
+            bloom_full: false,
+            valid_answers: 0,
+        }
     }
 }
 
@@ -578,7 +772,13 @@ enum Step {
 /// One poll: timer fires, the request goes to `server` (unless `deliver` is false, then the
 /// request is lost), the answer comes back. The model is advanced with what the server
 /// advertised at that moment.
-fn exchange(st: &St, link: &mut Link, server: &mut Server<FixedClock>, advertised: (u8, [u8; 4]), deliver: bool) -> Step {
+fn exchange(
+    st: &St,
+    link: &mut Link,
+    server: &mut Server<FixedClock>,
+    advertised: (u8, [u8; 4]),
+    deliver: bool,
+) -> Step {
     st.polls.fetch_add(1, Ordering::Relaxed);
     let mut req = None;
     for a in link.src.handle_timer() {
@@ -593,14 +793,32 @@ fn exchange(st: &St, link: &mut Link, server: &mut Server<FixedClock>, advertise
     link.model.reach <<= 1;
     let version = (req[0] >> 3) & 7;
     if !deliver {
-        return Step::Polled { version, answered: false };
+        return Step::Polled {
+            version,
+            answered: false,
+        };
     }
     let mut buf = [0u8; 1024];
-    let resp = match server.handle(link.client_ip, NtpTimestamp::from_fixed_int(0xE000_0000_0000_0200), &req, &mut buf[..req.len().max(48)], &mut NoStats) {
+    let resp = match server.handle(
+        link.client_ip,
+        NtpTimestamp::from_fixed_int(0xE000_0000_0000_0200),
+        &req,
+        &mut buf[..req.len().max(48)],
+        &mut NoStats,
+    ) {
         ServerAction::Respond { message } => message.to_vec(),
-        ServerAction::Ignore => return Step::Polled { version, answered: false },
+        ServerAction::Ignore => {
+            return Step::Polled {
+                version,
+                answered: false,
+            };
+        }
     };
-    for _ in link.src.handle_incoming(&resp, NtpTimestamp::from_fixed_int(0xE000_0000_0000_0100), NtpTimestamp::from_fixed_int(0xE000_0000_0000_0400)) {}
+    for _ in link.src.handle_incoming(
+        &resp,
+        NtpTimestamp::from_fixed_int(0xE000_0000_0000_0100),
+        NtpTimestamp::from_fixed_int(0xE000_0000_0000_0400),
+    ) {}
     // a valid time answer carries stratum 1..=16 (0 is a kiss code, > 16 is invalid)
     let (s, refid) = advertised;
     if (1..=16).contains(&s) {
@@ -617,7 +835,10 @@ fn exchange(st: &St, link: &mut Link, server: &mut Server<FixedClock>, advertise
             link.model.refid = refid;
         }
     }
-    Step::Polled { version, answered: true }
+    Step::Polled {
+        version,
+        answered: true,
+    }
 }
 
 fn last_usable(link: &Link) -> Option<bool> {
@@ -630,20 +851,31 @@ fn last_usable(link: &Link) -> Option<bool> {
 
 #[derive(Clone, Debug)]
 struct ECase {
-    ver: u8,       // 4, 5, or 45 (v4 upgrading to v5)
-    local: u8,     // local stratum
-    addr: usize,   // which address the source polls: 0 own v4, 1 own v6, 2 other v4
-    ipl: usize,    // local address list kind
-    first: usize,  // first phase: 0 none, 1 good (stratum 2, foreign reference id), 2 loop (stratum 3, local reference id)
-    stratum: u8,   // advertised in the phase under test
-    refk: usize,   // reference id kind advertised (v4 answers)
-    bloom: usize,  // 0 empty, 1 {us}, 2 {other}, 3 {us, other}
+    ver: u8,      // 4, 5, or 45 (v4 upgrading to v5)
+    local: u8,    // local stratum
+    addr: usize,  // which address the source polls: 0 own v4, 1 own v6, 2 other v4
+    ipl: usize,   // local address list kind
+    first: usize, // first phase: 0 none, 1 good (stratum 2, foreign reference id), 2 loop (stratum 3, local reference id)
+    stratum: u8,  // advertised in the phase under test
+    refk: usize,  // reference id kind advertised (v4 answers)
+    bloom: usize, // 0 empty, 1 {us}, 2 {other}, 3 {us, other}
     pattern: String,
 }
 
 impl ECase {
     fn trace(&self) -> String {
-        format!("E;{};{};{};{};{};{};{};{};{}", self.ver, self.local, self.addr, self.ipl, self.first, self.stratum, self.refk, self.bloom, self.pattern)
+        format!(
+            "E;{};{};{};{};{};{};{};{};{}",
+            self.ver,
+            self.local,
+            self.addr,
+            self.ipl,
+            self.first,
+            self.stratum,
+            self.refk,
+            self.bloom,
+            self.pattern
+        )
     }
     fn parse(p: &[&str]) -> Option<ECase> {
         Some(ECase {
@@ -672,7 +904,13 @@ fn new_manager(local: u8, ips: &[IpAddr]) -> (NtpManager, BloomFilter) {
     // the manager draws a random server id; make sure it is not (by a 2^-100 accident)
     // covered by the harness's foreign filter
     loop {
-        let mgr = NtpManager::new(SynchronizationConfig { local_stratum: local, ..SynchronizationConfig::default() }, ips.to_vec().into());
+        let mgr = NtpManager::new(
+            SynchronizationConfig {
+                local_stratum: local,
+                ..SynchronizationConfig::default()
+            },
+            ips.to_vec().into(),
+        );
         let mine = mgr.update_used_sources(std::iter::empty()).bloom_filter;
         let foreign = filter_of(&[OTHER_IDX]);
         let mut both = foreign;
@@ -697,8 +935,21 @@ fn run_e(ctx: &Ctx, st: &St, c: &ECase) -> String {
         _ => ProtocolVersion::v4_upgrading_to_v5_with_default_tries(),
     };
     let id = ClockId::new();
-    let (src, _) = mgr.new_source(SocketAddr::new(addr, 123), SourceConfig::default(), version, RecCtl::default(), None, id);
-    let mut link = Link { src, id, client_ip: ips.first().copied().unwrap_or(IpAddr::V4(OWN4)), server_ip: addr, model: Model::new() };
+    let (src, _) = mgr.new_source(
+        SocketAddr::new(addr, 123),
+        SourceConfig::default(),
+        version,
+        RecCtl::default(),
+        None,
+        id,
+    );
+    let mut link = Link {
+        src,
+        id,
+        client_ip: ips.first().copied().unwrap_or(IpAddr::V4(OWN4)),
+        server_ip: addr,
+        model: Model::new(),
+    };
     let mut srv = ScriptedServer::new();
     let bloom = match c.bloom {
         0 => BloomFilter::new(),
@@ -715,10 +966,17 @@ fn run_e(ctx: &Ctx, st: &St, c: &ECase) -> String {
     let mut phases: Vec<((u8, [u8; 4]), String)> = Vec::new();
     match c.first {
         1 => phases.push(((2, id_kind(2)), "aa".to_string())),
-        2 => phases.push(((3, own.first().copied().unwrap_or(id_kind(0))), "aa".to_string())),
+        2 => phases.push((
+            (3, own.first().copied().unwrap_or(id_kind(0))),
+            "aa".to_string(),
+        )),
         _ => {}
     }
-    let warm = if c.ver != 4 { "a".repeat(33) } else { String::new() };
+    let warm = if c.ver != 4 {
+        "a".repeat(33)
+    } else {
+        String::new()
+    };
     phases.push(((c.stratum, id_kind(c.refk)), format!("{warm}{}", c.pattern)));
     let mut ended = "end";
     let mut npolls = 0usize;
@@ -743,11 +1001,20 @@ fn run_e(ctx: &Ctx, st: &St, c: &ECase) -> String {
             let m = link.model.clone();
             let ref_is_own = own.contains(&m.refid);
             let full_reports = bloom_reports_us && m.bloom_full;
-            let mut v = oracle(m.stratum, c.local, m.reach != 0, source_is_own, ref_is_own, full_reports);
+            let mut v = oracle(
+                m.stratum,
+                c.local,
+                m.reach != 0,
+                source_is_own,
+                ref_is_own,
+                full_reports,
+            );
             if bloom_reports_us && !m.bloom_full && m.chunks > 0 && v == Verdict::MustAccept {
                 v = Verdict::Either; // partially transferred filter
             }
-            let Some(got) = last_usable(&link) else { continue };
+            let Some(got) = last_usable(&link) else {
+                continue;
+            };
             st.tally(v, got);
             obs.push(if got { 'U' } else { 'u' });
             verdict_check(
@@ -756,7 +1023,16 @@ fn run_e(ctx: &Ctx, st: &St, c: &ECase) -> String {
                 got,
                 &format!(
                     "source {addr} (v{}) after {} polls, {} valid answers: last advertised stratum {} refid {:02x?}, reach {:#04x}, local stratum {}, local ids {:02x?}, bloom transferred {} reporting us {}",
-                    c.ver, npolls, m.valid_answers, m.stratum, m.refid, m.reach, c.local, own, m.bloom_full, bloom_reports_us
+                    c.ver,
+                    npolls,
+                    m.valid_answers,
+                    m.stratum,
+                    m.refid,
+                    m.reach,
+                    c.local,
+                    own,
+                    m.bloom_full,
+                    bloom_reports_us
                 ),
                 &trace,
             );
@@ -784,20 +1060,39 @@ fn run_e(ctx: &Ctx, st: &St, c: &ECase) -> String {
                 let mut u = snap.bloom_filter;
                 u.add(&mine);
                 if u != snap.bloom_filter {
-                    ctx.violation("C33:advertised-bloom-missing-id", "advertised Bloom filter does not contain the own server id", &trace);
+                    ctx.violation(
+                        "C33:advertised-bloom-missing-id",
+                        "advertised Bloom filter does not contain the own server id",
+                        &trace,
+                    );
                 }
                 if m.bloom_full {
                     let mut u = snap.bloom_filter;
                     u.add(&bloom);
                     if u != snap.bloom_filter {
-                        ctx.violation("C33:advertised-bloom-missing-id", "advertised Bloom filter does not include the used source's filter", &trace);
+                        ctx.violation(
+                            "C33:advertised-bloom-missing-id",
+                            "advertised Bloom filter does not include the used source's filter",
+                            &trace,
+                        );
                     }
                 }
-                obs.push_str(&format!("[{}:{:02x?}]", snap.stratum, snap.reference_id.to_bytes()));
+                obs.push_str(&format!(
+                    "[{}:{:02x?}]",
+                    snap.stratum,
+                    snap.reference_id.to_bytes()
+                ));
                 // and with no used source the local stratum is advertised again
                 let none = mgr.update_used_sources(std::iter::empty());
                 if none.stratum != c.local {
-                    ctx.violation("C33:advertised-stratum", format!("no used source: advertised stratum {} != local stratum {}", none.stratum, c.local), &trace);
+                    ctx.violation(
+                        "C33:advertised-stratum",
+                        format!(
+                            "no used source: advertised stratum {} != local stratum {}",
+                            none.stratum, c.local
+                        ),
+                        &trace,
+                    );
                 }
             }
         }
@@ -806,10 +1101,18 @@ fn run_e(ctx: &Ctx, st: &St, c: &ECase) -> String {
 }
 
 fn e_patterns(ctx: &Ctx) -> Vec<String> {
-    let mut v = vec!["aasssssssss".to_string(), "ssss".to_string(), "asasaaasssssssss".to_string()];
+    let mut v = vec![
+        "aasssssssss".to_string(),
+        "ssss".to_string(),
+        "asasaaasssssssss".to_string(),
+    ];
     if !ctx.quick() {
         for bits in 0..(1u32 << 10) {
-            v.push((0..10).map(|i| if bits >> i & 1 == 1 { 'a' } else { 's' }).collect());
+            v.push(
+                (0..10)
+                    .map(|i| if bits >> i & 1 == 1 { 'a' } else { 's' })
+                    .collect(),
+            );
         }
     }
     v
@@ -827,7 +1130,17 @@ fn part_e(ctx: &Ctx, st: &St) {
                         for refk in 0..REF_KINDS {
                             // all 2^10 answer patterns only without a first phase
                             for p in pats.iter().take(if first == 0 { pats.len() } else { 3 }) {
-                                cases.push(ECase { ver: 4, local, addr, ipl, first, stratum, refk, bloom: 0, pattern: p.clone() });
+                                cases.push(ECase {
+                                    ver: 4,
+                                    local,
+                                    addr,
+                                    ipl,
+                                    first,
+                                    stratum,
+                                    refk,
+                                    bloom: 0,
+                                    pattern: p.clone(),
+                                });
                             }
                         }
                     }
@@ -837,7 +1150,15 @@ fn part_e(ctx: &Ctx, st: &St) {
     }
     let v4 = cases.len();
     // NTPv5: Bloom filters matter (32 chunks of 16 bytes must arrive first)
-    let pats5: Vec<String> = if ctx.quick() { pats.clone() } else { pats.iter().take(3).cloned().chain(pats.iter().skip(3).step_by(37).cloned()).collect() };
+    let pats5: Vec<String> = if ctx.quick() {
+        pats.clone()
+    } else {
+        pats.iter()
+            .take(3)
+            .cloned()
+            .chain(pats.iter().skip(3).step_by(37).cloned())
+            .collect()
+    };
     for local in [2u8, 16] {
         for addr in 0..3 {
             for ipl in [0usize, 2] {
@@ -845,7 +1166,17 @@ fn part_e(ctx: &Ctx, st: &St) {
                     for stratum in 0..=17u8 {
                         for bloom in 0..4 {
                             for p in &pats5 {
-                                cases.push(ECase { ver: 5, local, addr, ipl, first, stratum, refk: 2, bloom, pattern: p.clone() });
+                                cases.push(ECase {
+                                    ver: 5,
+                                    local,
+                                    addr,
+                                    ipl,
+                                    first,
+                                    stratum,
+                                    refk: 2,
+                                    bloom,
+                                    pattern: p.clone(),
+                                });
                             }
                         }
                     }
@@ -858,7 +1189,17 @@ fn part_e(ctx: &Ctx, st: &St) {
         for refk in [0usize, 2] {
             for bloom in 0..4 {
                 for p in pats.iter().take(3) {
-                    cases.push(ECase { ver: 45, local: 16, addr: 2, ipl: 0, first: 0, stratum, refk, bloom, pattern: p.clone() });
+                    cases.push(ECase {
+                        ver: 45,
+                        local: 16,
+                        addr: 2,
+                        ipl: 0,
+                        first: 0,
+                        stratum,
+                        refk,
+                        bloom,
+                        pattern: p.clone(),
+                    });
                 }
             }
         }
@@ -869,7 +1210,13 @@ fn part_e(ctx: &Ctx, st: &St) {
     common::par_for_with(
         n,
         16,
-        || tokio::runtime::Builder::new_current_thread().enable_time().start_paused(true).build().expect("runtime"),
+        || {
+            tokio::runtime::Builder::new_current_thread()
+                .enable_time()
+                .start_paused(true)
+                .build()
+                .expect("runtime")
+        },
         |rt, i| {
             let c = &cases[i as usize];
             let o = rt.block_on(async { run_e(ctx, st, c) });
@@ -887,10 +1234,10 @@ fn part_e(ctx: &Ctx, st: &St) {
 
 #[derive(Clone, Debug)]
 struct DCase {
-    ver: u8,      // 4 or 5
-    s_up: u8,     // stratum of A's upstream (0 = A has a PPS reference clock)
-    fam: usize,   // A's address family as seen by B: 0 v4, 1 v6
-    ipl: usize,   // A's local address list: 0 = [addrA], 1 = [SECOND4, addrA]
+    ver: u8,    // 4 or 5
+    s_up: u8,   // stratum of A's upstream (0 = A has a PPS reference clock)
+    fam: usize, // A's address family as seen by B: 0 v4, 1 v6
+    ipl: usize, // A's local address list: 0 = [addrA], 1 = [SECOND4, addrA]
 }
 
 impl DCase {
@@ -902,15 +1249,35 @@ impl DCase {
 fn run_d(ctx: &Ctx, st: &St, c: &DCase) -> String {
     let trace = c.trace();
     let mut obs = String::new();
-    let addr_a: IpAddr = if c.fam == 0 { IpAddr::V4(OWN4) } else { IpAddr::V6(own6()) };
+    let addr_a: IpAddr = if c.fam == 0 {
+        IpAddr::V4(OWN4)
+    } else {
+        IpAddr::V6(own6())
+    };
     let addr_b = IpAddr::V4(OTHER4);
-    let ips_a: Vec<IpAddr> = if c.ipl == 0 { vec![addr_a] } else { vec![IpAddr::V4(SECOND4), addr_a] };
+    let ips_a: Vec<IpAddr> = if c.ipl == 0 {
+        vec![addr_a]
+    } else {
+        vec![IpAddr::V4(SECOND4), addr_a]
+    };
     let own_a: Vec<[u8; 4]> = ips_a.iter().map(|i| ref_id_of(*i)).collect();
     let (mgr_a, mine_a) = new_manager(16, &ips_a);
     let (mgr_b, mine_b) = new_manager(16, &[addr_b]);
-    let mut server_a = mgr_a.new_server(open_server_config(), FixedClock, KeySetProvider::new(1).get());
-    let mut server_b = mgr_b.new_server(open_server_config(), FixedClock, KeySetProvider::new(1).get());
-    let pv = if c.ver == 5 { ProtocolVersion::V5 } else { ProtocolVersion::V4 };
+    let mut server_a = mgr_a.new_server(
+        open_server_config(),
+        FixedClock,
+        KeySetProvider::new(1).get(),
+    );
+    let mut server_b = mgr_b.new_server(
+        open_server_config(),
+        FixedClock,
+        KeySetProvider::new(1).get(),
+    );
+    let pv = if c.ver == 5 {
+        ProtocolVersion::V5
+    } else {
+        ProtocolVersion::V4
+    };
     let n = if c.ver == 5 { 33 } else { 2 };
     // 1. A gets time from upstream
     let up_id = ClockId::new();
@@ -922,8 +1289,21 @@ fn run_d(ctx: &Ctx, st: &St, c: &DCase) -> String {
     } else {
         let mut up = ScriptedServer::new();
         up.advertise(c.s_up, *b"GPS\0", filter_of(&[THIRD_IDX]));
-        let (src, _) = mgr_a.new_source(SocketAddr::new(IpAddr::V4(UP4), 123), SourceConfig::default(), pv, RecCtl::default(), None, up_id);
-        let mut l = Link { src, id: up_id, client_ip: addr_a, server_ip: IpAddr::V4(UP4), model: Model::new() };
+        let (src, _) = mgr_a.new_source(
+            SocketAddr::new(IpAddr::V4(UP4), 123),
+            SourceConfig::default(),
+            pv,
+            RecCtl::default(),
+            None,
+            up_id,
+        );
+        let mut l = Link {
+            src,
+            id: up_id,
+            client_ip: addr_a,
+            server_ip: IpAddr::V4(UP4),
+            model: Model::new(),
+        };
         for _ in 0..n {
             exchange(st, &mut l, &mut up.server, (c.s_up, *b"GPS\0"), true);
         }
@@ -935,25 +1315,73 @@ fn run_d(ctx: &Ctx, st: &St, c: &DCase) -> String {
         a_stratum = c.s_up + 1;
     }
     let snap_a = mgr_a.update_used_sources(a_used.iter().copied());
-    obs.push_str(&format!("A={}:{:02x?} ", snap_a.stratum, snap_a.reference_id.to_bytes()));
+    obs.push_str(&format!(
+        "A={}:{:02x?} ",
+        snap_a.stratum,
+        snap_a.reference_id.to_bytes()
+    ));
     if snap_a.stratum != a_stratum {
-        ctx.violation("C33:advertised-stratum", format!("daemon A advertises stratum {} with a primary source at stratum {}", snap_a.stratum, a_stratum - 1), &trace);
+        ctx.violation(
+            "C33:advertised-stratum",
+            format!(
+                "daemon A advertises stratum {} with a primary source at stratum {}",
+                snap_a.stratum,
+                a_stratum - 1
+            ),
+            &trace,
+        );
     }
     // 2. B polls A and uses it
     let ba_id = ClockId::new();
-    let (src, _) = mgr_b.new_source(SocketAddr::new(addr_a, 123), SourceConfig::default(), pv, RecCtl::default(), None, ba_id);
-    let mut b_to_a = Link { src, id: ba_id, client_ip: addr_b, server_ip: addr_a, model: Model::new() };
+    let (src, _) = mgr_b.new_source(
+        SocketAddr::new(addr_a, 123),
+        SourceConfig::default(),
+        pv,
+        RecCtl::default(),
+        None,
+        ba_id,
+    );
+    let mut b_to_a = Link {
+        src,
+        id: ba_id,
+        client_ip: addr_b,
+        server_ip: addr_a,
+        model: Model::new(),
+    };
     for _ in 0..n {
-        exchange(st, &mut b_to_a, &mut server_a, (snap_a.stratum, snap_a.reference_id.to_bytes()), true);
+        exchange(
+            st,
+            &mut b_to_a,
+            &mut server_a,
+            (snap_a.stratum, snap_a.reference_id.to_bytes()),
+            true,
+        );
     }
     let got = last_usable(&b_to_a).unwrap_or(false);
     let v = oracle(snap_a.stratum, 16, true, false, false, false);
     st.tally(v, got);
-    verdict_check(ctx, v, got, "B's source A (A does not synchronise to B yet)", &trace);
+    verdict_check(
+        ctx,
+        v,
+        got,
+        "B's source A (A does not synchronise to B yet)",
+        &trace,
+    );
     let snap_b = mgr_b.update_used_sources(std::iter::once((ba_id, SourceType::Ntp)));
-    obs.push_str(&format!("B={}:{:02x?} ", snap_b.stratum, snap_b.reference_id.to_bytes()));
+    obs.push_str(&format!(
+        "B={}:{:02x?} ",
+        snap_b.stratum,
+        snap_b.reference_id.to_bytes()
+    ));
     if snap_b.stratum as u16 != snap_a.stratum as u16 + 1 {
-        ctx.violation("C33:advertised-stratum", format!("daemon B advertises stratum {} while its primary source A advertises {}", snap_b.stratum, snap_a.stratum), &trace);
+        ctx.violation(
+            "C33:advertised-stratum",
+            format!(
+                "daemon B advertises stratum {} while its primary source A advertises {}",
+                snap_b.stratum, snap_a.stratum
+            ),
+            &trace,
+        );
     }
     if snap_b.reference_id.to_bytes() != ref_id_of(addr_a) {
         ctx.violation("C33:advertised-refid", format!("daemon B advertises reference id {:02x?}, its primary source A is {addr_a} = {:02x?}", snap_b.reference_id.to_bytes(), ref_id_of(addr_a)), &trace);
@@ -961,23 +1389,55 @@ fn run_d(ctx: &Ctx, st: &St, c: &DCase) -> String {
     st.snapshots.fetch_add(2, Ordering::Relaxed);
     // 3. A polls B, which synchronises to A: must never become usable once B has reported it
     let ab_id = ClockId::new();
-    let (src, _) = mgr_a.new_source(SocketAddr::new(addr_b, 123), SourceConfig::default(), pv, RecCtl::default(), None, ab_id);
-    let mut a_to_b = Link { src, id: ab_id, client_ip: addr_a, server_ip: addr_b, model: Model::new() };
+    let (src, _) = mgr_a.new_source(
+        SocketAddr::new(addr_b, 123),
+        SourceConfig::default(),
+        pv,
+        RecCtl::default(),
+        None,
+        ab_id,
+    );
+    let mut a_to_b = Link {
+        src,
+        id: ab_id,
+        client_ip: addr_a,
+        server_ip: addr_b,
+        model: Model::new(),
+    };
     for k in 0..n + 2 {
-        exchange(st, &mut a_to_b, &mut server_b, (snap_b.stratum, snap_b.reference_id.to_bytes()), true);
+        exchange(
+            st,
+            &mut a_to_b,
+            &mut server_b,
+            (snap_b.stratum, snap_b.reference_id.to_bytes()),
+            true,
+        );
         let m = a_to_b.model.clone();
-        let Some(got) = last_usable(&a_to_b) else { continue };
+        let Some(got) = last_usable(&a_to_b) else {
+            continue;
+        };
         // B reports that it synchronises to A: by reference id (v4), by Bloom filter (v5, once complete)
         let ref_is_own = own_a.contains(&m.refid);
         let mut u = snap_b.bloom_filter;
         u.add(&mine_a);
         let b_filter_has_a = u == snap_b.bloom_filter;
-        let mut v = oracle(m.stratum, 16, m.reach != 0, false, ref_is_own, c.ver == 5 && m.bloom_full && b_filter_has_a);
+        let mut v = oracle(
+            m.stratum,
+            16,
+            m.reach != 0,
+            false,
+            ref_is_own,
+            c.ver == 5 && m.bloom_full && b_filter_has_a,
+        );
         if c.ver == 5 && !m.bloom_full && v == Verdict::MustAccept {
             v = Verdict::Either;
         }
         if c.ver == 5 && m.bloom_full && !b_filter_has_a {
-            ctx.violation("C33:advertised-bloom-missing-id", "B uses A but B's advertised Bloom filter does not contain A's server id", &trace);
+            ctx.violation(
+                "C33:advertised-bloom-missing-id",
+                "B uses A but B's advertised Bloom filter does not contain A's server id",
+                &trace,
+            );
         }
         st.tally(v, got);
         obs.push(if got { 'U' } else { 'u' });
@@ -985,7 +1445,10 @@ fn run_d(ctx: &Ctx, st: &St, c: &DCase) -> String {
             ctx,
             v,
             got,
-            &format!("daemon A ({addr_a}, local ids {own_a:02x?}) polls B which synchronises to A and advertises stratum {} refid {:02x?} (poll {k}, v{})", m.stratum, m.refid, c.ver),
+            &format!(
+                "daemon A ({addr_a}, local ids {own_a:02x?}) polls B which synchronises to A and advertises stratum {} refid {:02x?} (poll {k}, v{})",
+                m.stratum, m.refid, c.ver
+            ),
             &trace,
         );
     }
@@ -999,7 +1462,12 @@ fn part_d(ctx: &Ctx, st: &St) {
         for s_up in [0u8, 1, 2, 5, 13] {
             for fam in 0..2 {
                 for ipl in 0..2 {
-                    cases.push(DCase { ver, s_up, fam, ipl });
+                    cases.push(DCase {
+                        ver,
+                        s_up,
+                        fam,
+                        ipl,
+                    });
                 }
             }
         }
@@ -1009,7 +1477,13 @@ fn part_d(ctx: &Ctx, st: &St) {
     common::par_for_with(
         n,
         1,
-        || tokio::runtime::Builder::new_current_thread().enable_time().start_paused(true).build().expect("runtime"),
+        || {
+            tokio::runtime::Builder::new_current_thread()
+                .enable_time()
+                .start_paused(true)
+                .build()
+                .expect("runtime")
+        },
         |rt, i| {
             let c = &cases[i as usize];
             let o = rt.block_on(async { run_d(ctx, st, c) });
@@ -1025,11 +1499,25 @@ fn part_d(ctx: &Ctx, st: &St) {
 
 fn preliminary(ctx: &Ctx) {
     // the crate's reference-id derivation against the RFC 5905 definition
-    for ip in [IpAddr::V4(OWN4), IpAddr::V4(OTHER4), IpAddr::V4(SECOND4), IpAddr::V6(own6()), IpAddr::V6(other6()), "2001:db8:85a3::8a2e:370:7334".parse().unwrap()] {
+    for ip in [
+        IpAddr::V4(OWN4),
+        IpAddr::V4(OTHER4),
+        IpAddr::V4(SECOND4),
+        IpAddr::V6(own6()),
+        IpAddr::V6(other6()),
+        "2001:db8:85a3::8a2e:370:7334".parse().unwrap(),
+    ] {
         ctx.inc("evaluations_refid");
         let got = ReferenceId::from_ip(ip).to_bytes();
         if got != ref_id_of(ip) {
-            ctx.violation("C33:refid-from-ip", format!("ReferenceId::from_ip({ip}) = {got:02x?}, RFC 5905 says {:02x?}", ref_id_of(ip)), format!("R;{ip}"));
+            ctx.violation(
+                "C33:refid-from-ip",
+                format!(
+                    "ReferenceId::from_ip({ip}) = {got:02x?}, RFC 5905 says {:02x?}",
+                    ref_id_of(ip)
+                ),
+                format!("R;{ip}"),
+            );
         }
     }
 }
@@ -1041,12 +1529,23 @@ fn replay(ctx: &Ctx, trace: &str) -> String {
     match p[0] {
         "A" => {
             let blooms: Vec<_> = (0..BLOOM_KINDS).map(bloom_kind).collect();
-            let c = ACase { stratum: num(1) as u8, local: num(2) as u8, reach: num(3) as u8, src: num(4), refk: num(5), ipl: num(6), bloom: num(7) };
+            let c = ACase {
+                stratum: num(1) as u8,
+                local: num(2) as u8,
+                reach: num(3) as u8,
+                src: num(4),
+                refk: num(5),
+                ipl: num(6),
+                bloom: num(7),
+            };
             run_a(ctx, &st, c, &blooms)
         }
         "B" => {
             let alpha = alphabet();
-            let w: Vec<usize> = p.get(2).map(|s| s.split(',').filter_map(|x| x.parse().ok()).collect()).unwrap_or_default();
+            let w: Vec<usize> = p
+                .get(2)
+                .map(|s| s.split(',').filter_map(|x| x.parse().ok()).collect())
+                .unwrap_or_default();
             run_b(ctx, &st, num(1) as u8, &w, &alpha)
         }
         "E" => match ECase::parse(&p) {
@@ -1054,7 +1553,12 @@ fn replay(ctx: &Ctx, trace: &str) -> String {
             None => "bad trace".to_string(),
         },
         "D" => {
-            let c = DCase { ver: num(1) as u8, s_up: num(2) as u8, fam: num(3), ipl: num(4) };
+            let c = DCase {
+                ver: num(1) as u8,
+                s_up: num(2) as u8,
+                fam: num(3),
+                ipl: num(4),
+            };
             super::block_on_paused(async { run_d(ctx, &st, &c) })
         }
         "R" => {
@@ -1092,7 +1596,15 @@ fn check() {
     // foreign address, whose reference id is this daemon's only (IPv4) address
     {
         let blooms: Vec<_> = (0..BLOOM_KINDS).map(bloom_kind).collect();
-        let c = ACase { stratum: 2, local: 16, reach: 1, src: 2, refk: 0, ipl: 0, bloom: 0 };
+        let c = ACase {
+            stratum: 2,
+            local: 16,
+            reach: 1,
+            src: 2,
+            refk: 0,
+            ipl: 0,
+            bloom: 0,
+        };
         ctx.sample(format!("{} -> {}", c.trace(), run_a(&ctx, &st, c, &blooms)));
     }
     let t0 = ctx.elapsed_s();
@@ -1103,22 +1615,52 @@ fn check() {
     part_b(&ctx, &st);
     let t_b = ctx.elapsed_s();
     part_e(&ctx, &st);
-    ctx.note("timing", &format!("D {:.1}s, A {:.1}s, B {:.1}s, E {:.1}s", t_d - t0, t_a - t_d, t_b - t_a, ctx.elapsed_s() - t_b));
+    ctx.note(
+        "timing",
+        &format!(
+            "D {:.1}s, A {:.1}s, B {:.1}s, E {:.1}s",
+            t_d - t0,
+            t_a - t_d,
+            t_b - t_a,
+            ctx.elapsed_s() - t_b
+        ),
+    );
     ctx.set("evaluations", st.evals.load(Ordering::Relaxed));
     ctx.set("transitions", st.polls.load(Ordering::Relaxed));
     ctx.set("states", st.steps.load(Ordering::Relaxed));
     ctx.set("outcome_usable", st.accepted.load(Ordering::Relaxed));
     ctx.set("outcome_not_usable", st.rejected.load(Ordering::Relaxed));
-    ctx.set("oracle_must_reject_stratum", st.must_reject_stratum.load(Ordering::Relaxed));
-    ctx.set("oracle_must_reject_unreachable", st.must_reject_unreachable.load(Ordering::Relaxed));
-    ctx.set("oracle_must_reject_bloom_loop", st.must_reject_bloom.load(Ordering::Relaxed));
-    ctx.set("oracle_must_reject_refid_loop", st.must_reject_refid.load(Ordering::Relaxed));
-    ctx.set("oracle_must_reject_self", st.must_reject_self.load(Ordering::Relaxed));
+    ctx.set(
+        "oracle_must_reject_stratum",
+        st.must_reject_stratum.load(Ordering::Relaxed),
+    );
+    ctx.set(
+        "oracle_must_reject_unreachable",
+        st.must_reject_unreachable.load(Ordering::Relaxed),
+    );
+    ctx.set(
+        "oracle_must_reject_bloom_loop",
+        st.must_reject_bloom.load(Ordering::Relaxed),
+    );
+    ctx.set(
+        "oracle_must_reject_refid_loop",
+        st.must_reject_refid.load(Ordering::Relaxed),
+    );
+    ctx.set(
+        "oracle_must_reject_self",
+        st.must_reject_self.load(Ordering::Relaxed),
+    );
     ctx.set("oracle_must_accept", st.must_accept.load(Ordering::Relaxed));
     ctx.set("oracle_either", st.either.load(Ordering::Relaxed));
     ctx.set("e2e_resets", st.resets.load(Ordering::Relaxed));
-    ctx.set("advertisements_checked", st.snapshots.load(Ordering::Relaxed));
-    ctx.set("e2e_steps_with_complete_bloom_transfer", st.bloom_transfers.load(Ordering::Relaxed));
+    ctx.set(
+        "advertisements_checked",
+        st.snapshots.load(Ordering::Relaxed),
+    );
+    ctx.set(
+        "e2e_steps_with_complete_bloom_transfer",
+        st.bloom_transfers.load(Ordering::Relaxed),
+    );
     ctx.exhaustive(true);
     ctx.finish();
 }
